@@ -147,6 +147,10 @@ def judge(family, case, rec):
     # ---- sample calls with the three forms of n
     forms = [("None", None, list(Ns)), ("int", 25, [25] * e), ("list", [int(v) for v in rng.integers(5, 40, e)], None)]
     forms[2] = ("list", forms[2][1], list(forms[2][1]))
+    if case["k"] % 32 == 3 and p <= 5:
+        big = [4500] + [int(v) for v in rng.integers(5, 40, e - 1)]          # more than 4096 rows in one environment
+        forms.append(("list", big, list(big)))
+        rec.count("n:more-than-4096-rows")
     for (fname, n, sizes) in forms:
         for rs in (None, case["rs"] if case["k"] % 5 else np.int64(case["rs"])):
             rec.count("sample-calls")
